@@ -108,6 +108,9 @@ var connectTo = []struct {
 	{"first-match-wins", []pair{{"", "80", "redir.test", "9000"}, {"origin.test", "80", "other.test", "1"}}},
 	{"second-rule-matches", []pair{{"nomatch.test", "80", "other.test", "1"}, {"origin.test", "", "redir.test", ""}}},
 	{"https-port", []pair{{"", "443", "redir.test", "9000"}, {"", "8443", "redir.test", "9001"}}},
+	// (round 9) a rule written with upper-case letters applies to a hop written the same way (rules are configuration
+	// text: whatever the option parser does to them, it must do to nothing or to both sides of the comparison)
+	{"upper-case-source", []pair{{"ORIGIN.TEST", "80", "redir.test", "9000"}, {"ORIGIN.TEST", "443", "redir.test", "9001"}}},
 	// chained rules: the mapping is applied once, never to its own result
 	{"swap", []pair{{"origin.test", "80", "redir.test", "9000"}, {"redir.test", "9000", "origin.test", "80"}, {"up.test", "8080", "b.test", "2"}, {"b.test", "2", "up.test", "8080"}}},
 }
